@@ -16,7 +16,10 @@ Inductive hentry :=
 | EDCdiag (k : nat) (c : gz)              (* DiagonalCoulomb one-body part: c n_k *)
 | EDCv (i j : nat) (c : gz)               (* DiagonalCoulomb: c n_i n_j, n = n_a + n_b *)
 | EString (ops : list (nat * bool)) (c : gz)  (* OpenFermion string, index 2i+s, (index, dagger) *)
-| EScalar (c : gz).
+| EScalar (c : gz)
+| ENumber (c : gz)                         (* c * N,  N = sum_p n_p *)
+| ETwoSz (c : gz)                          (* c * 2 Sz = c * sum_i (n_ia - n_ib) *)
+| EFourS2 (c : gz).                        (* c * 4 S^2 = c (4 S_- S_+ + 2 (2Sz) + (2Sz)^2) *)
 
 (* all spin assignments of r labels *)
 Fixpoint spin_assignments (r : nat) : list (list bool) :=
@@ -32,6 +35,9 @@ Definition spinorb_hop (norb : nat) (dg : bool) (p : nat) : hop :=
   (Nat.leb norb p, if Nat.leb norb p then p - norb else p, dg).
 
 Definition num_op (beta : bool) (i : nat) : list hop := [(beta, i, true); (beta, i, false)].
+
+Definition two_sz_terms (norb : nat) (c : gz) : list hterm :=
+  flat_map (fun i => [(c, num_op false i); (gzopp c, num_op true i)]) (seq 0 norb).
 
 Definition denote (norb : nat) (e : hentry) : list hterm :=
   match e with
@@ -50,6 +56,15 @@ Definition denote (norb : nat) (e : hentry) : list hterm :=
      (c, num_op true i ++ num_op false j); (c, num_op true i ++ num_op true j)]
   | EString ops c => [(c, map (fun o => (Nat.odd (fst o), Nat.div2 (fst o), snd o)) ops)]
   | EScalar c => [(c, [])]
+  | ENumber c => flat_map (fun i => [(c, num_op false i); (c, num_op true i)]) (seq 0 norb)
+  | ETwoSz c => two_sz_terms norb c
+  | EFourS2 c =>
+    (* 4 S_- S_+ = 4 sum_ij b†_i a_i a†_j b_j *)
+    flat_map (fun i => map (fun j => (gzmul (4, 0)%Z c,
+                [(true, i, true); (false, i, false); (false, j, true); (true, j, false)])) (seq 0 norb)) (seq 0 norb)
+    ++ two_sz_terms norb (gzmul (2, 0)%Z c)
+    ++ flat_map (fun t1 => map (fun t2 => (gzmul c (gzmul (fst t1) (fst t2)), snd t1 ++ snd t2))
+                               (two_sz_terms norb gz1)) (two_sz_terms norb gz1)
   end.
 
 Definition denote_all (norb : nat) (es : list hentry) : list hterm := flat_map (denote norb) es.
